@@ -21,7 +21,7 @@ void eng_default_profile(void)
 {
         memset(&EP, 0, sizeof EP);
         EP.max_cmds = 16; EP.p_event_step = 20; EP.p_handler_trigger = 20; EP.p_hold = 10; EP.p_list = 7; EP.p_weird = 13;
-        EP.p_varcb_fail = 3; EP.p_backpressure = 50; EP.p_desc = 25; EP.p_garbage_line = 6; EP.p_long_line = 8; EP.max_lines = 8; EP.p_cut = 15; EP.p_lookup = 4; EP.p_toggle = 5; EP.p_empty_name = 0; EP.p_nul = 3; EP.p_stray_cr = 4;
+        EP.p_varcb_fail = 3; EP.p_backpressure = 50; EP.p_desc = 25; EP.p_garbage_line = 6; EP.p_long_line = 8; EP.max_lines = 8; EP.p_cut = 15; EP.p_lookup = 4; EP.p_toggle = 5; EP.p_read_trigger = 8; EP.p_empty_name = 0; EP.p_nul = 3; EP.p_stray_cr = 4;
 }
 
 /* ------------------------------------------------------------ model hooks */
@@ -102,6 +102,7 @@ cat_status eng_trigger(int ci, cat_cmd_type t)
         cat_status s = cat_trigger_unsolicited_event(W.at, W.cmd[ci], t);
         ev_note("trigger cmd#%d %s -> %d", ci, t == CAT_CMD_TYPE_READ ? "READ" : "TEST", (int)s);
         bool room = EV_WAITING < QCAP;
+        if (s == CAT_STATUS_ERROR_MUTEX_UNLOCK && MX_FAIL_UNLOCK_AT >= 0 && MX_UNLOCKS == MX_FAIL_UNLOCK_AT + 1) { s = room ? CAT_STATUS_OK : CAT_STATUS_ERROR_BUFFER_FULL; CNT("triggers_with_an_injected_unlock_failure"); }      /* the injected fault changes the return value only (C16): the event is queued if there was room */
         if (room && s != CAT_STATUS_OK) viol("C13", "refused-with-room", "trigger refused (%d) with %ld of %d waiting", (int)s, EV_WAITING, QCAP);
         if (!room && s != CAT_STATUS_ERROR_BUFFER_FULL) viol("C13", "accepted-when-full", "trigger returned %d with %ld of %d waiting", (int)s, EV_WAITING, QCAP);
         if (s == CAT_STATUS_OK) { EV_WAITING++; CNT("events_accepted"); if (evq_n < 32) { evq[evq_n].ci = ci; evq[evq_n].type = (int)t; evq_n++; } } else CNT("events_refused");
@@ -203,6 +204,7 @@ void eng_spurious_hold_exit(void)
 /* ------------------------------------------------------ post-step monitors */
 void eng_after_service(cat_status s)
 {
+        if (s == CAT_STATUS_ERROR_MUTEX_UNLOCK && MX_FAIL_UNLOCK_AT >= 0 && MX_UNLOCKS == MX_FAIL_UNLOCK_AT + 1) { CNT("service_calls_with_an_injected_unlock_failure"); return; }      /* the harness made this unlock fail: the call did its work, only the status differs */
         if (s != CAT_STATUS_OK && s != CAT_STATUS_BUSY) viol("C15", "bad-service-status", "cat_service returned %d", (int)s);
         if (HOLD_PHASE == 2) HOLD_PHASE = 3;          /* a pending release request is consumed by the call that just returned */
         if (!taint_hold) {
@@ -254,6 +256,7 @@ void eng_after_service(cat_status s)
                 long hc2 = 0; for (int f = 0; f < 2; f++) for (int k = 0; k < 4; k++) hc2 += N_HCALL[f][k];
                 hc2 += N_VCALL[0] + N_VCALL[1];
                 CNT("quiescence_probes");
+                if (s2 == CAT_STATUS_ERROR_MUTEX_UNLOCK && MX_FAIL_UNLOCK_AT >= 0 && MX_UNLOCKS == MX_FAIL_UNLOCK_AT + 1) s2 = CAT_STATUS_OK;      /* injected unlock failure: status only */
                 if (s2 != CAT_STATUS_OK) viol("C15", "probe-not-ok", "cat_service returned OK, the immediately repeated call returned %d", (int)s2);
                 if (OUTN != outn || N_WRITE_OK + N_WRITE_NO != wr) viol("C15", "probe-emitted", "the repeated call after OK offered output");
                 if (hc2 != hc) viol("C15", "probe-invoked-callback", "the repeated call after OK invoked a handler or variable callback");
@@ -263,9 +266,16 @@ void eng_after_service(cat_status s)
         canary_check("after service");
 }
 
+/* an application may raise an event from anywhere, also from its io->read callback when it finds nothing to deliver (a driver that turns line-status changes into events) */
+static void on_read_refused(void)
+{
+        if (!stim_on || W.use_mutex || READ_GATE == false || !EP.p_read_trigger || pr_n(&H, 1000) >= EP.p_read_trigger) return;
+        eng_trigger((int)pr_n(&H, (unsigned)W.ncmds), pr_pct(&H, 50) ? CAT_CMD_TYPE_READ : CAT_CMD_TYPE_TEST);
+        CNT("triggers_from_the_read_callback");
+}
 void eng_monitors_install(void)
 {
-        ON_READ = on_read; ON_WRITE = on_write; ON_UNIT = on_unit; ON_PHASE = on_phase;
+        ON_READ = on_read; ON_WRITE = on_write; ON_UNIT = on_unit; ON_PHASE = on_phase; ON_READ_REFUSED = on_read_refused;
         POLICY = eng_policy; VPOLICY = eng_vpolicy;
         evq_n = 0; ev_cur_ci = -1;
         HOLD_PHASE = 0; EV_WAITING = 0; EV_INPROGRESS = false; LINES_DONE = 0; line_nonblank = false; taint_hold = false;
@@ -277,7 +287,7 @@ void eng_monitors_install(void)
 static const char ALPHA[] = "+ATB#&z9%";
 static char *mkname(void)
 {
-        char b[8]; unsigned n = 1 + rn(4);
+        char b[12]; unsigned n = 1 + rn(chance(88) ? 4 : 9);      /* also names as long as, or longer than, the smallest command buffers */
         if (EP.p_empty_name && chance(EP.p_empty_name)) n = 0;      /* cat_init only asks for name != NULL */
         for (unsigned i = 0; i < n; i++) b[i] = ALPHA[rn(sizeof ALPHA - 1)];
         b[n] = 0;
@@ -308,7 +318,7 @@ void eng_gen_table(void)
                         struct cat_variable *v = w_vars(c, nv);
                         for (unsigned k = 0; k < nv; k++) {
                                 v[k].type = (cat_var_type)rn(5); v[k].access = (cat_var_access)rn(3);
-                                if (chance(50)) { char nb[12]; snprintf(nb, sizeof nb, chance(10) ? "%%N%u" : "N%u", k); v[k].name = xstr(nb); }
+                                if (chance(50)) { char nb[64]; snprintf(nb, sizeof nb, chance(10) ? "%%N%u" : chance(8) ? "measurement_interval_in_milliseconds_channel_%u" : "N%u", k); v[k].name = xstr(nb); }      /* also names longer than any fixed scratch buffer */
                                 size_t sz;
                                 if (v[k].type <= CAT_VAR_NUM_HEX) { static const size_t szs[] = { 1, 2, 4, 4, 2, 1, 3, 8 }; sz = szs[rn(chance(90) ? 6 : 8)]; }
                                 else sz = chance(85) ? 1 + rn(8) : chance(50) ? 17 + rn(48) : 1 + rn(64);
@@ -348,7 +358,7 @@ static void gen_args(const struct cat_command *c)
                         default: {
                                 in_putc('"');
                                 unsigned k = rn(10);
-                                for (unsigned q = 0; q < k; q++) { unsigned r = rn(10); if (r == 0) in_puts("\\\\"); else if (r == 1) in_puts("\\\""); else if (r == 2) in_puts("\\n"); else if (r == 3) in_putc(','); else in_putc('a' + (int)rn(26)); }
+                                for (unsigned q = 0; q < k; q++) { unsigned r = rn(10); if (r == 0) in_puts("\\\\"); else if (r == 1) in_puts("\\\""); else if (r == 2) in_puts("\\n"); else if (r == 3) in_putc(','); else if (r == 4 && chance(25)) in_puts(chance(50) ? "\\x4a" : "\\X4B"); else in_putc('a' + (int)rn(26)); }
                                 if (!chance(5)) in_putc('"');
                         } break;
                         }
@@ -368,7 +378,8 @@ void eng_gen_line(void)      /* appends exactly one line, LF included */
         else if (r < EP.p_garbage_line + 4) { unsigned n = rn(3); for (unsigned q = 0; q < n; q++) in_putc('\r'); }
         else {
                 if (chance(5)) in_putc('\r');
-                in_puts(chance(50) ? "AT" : (chance(50) ? "at" : "aT"));
+                if (chance(4)) in_puts(chance(50) ? "A\rT" : "a\r\rt");      /* a CR inside the prefix is a CR after the first non-blank character */
+                else in_puts(chance(50) ? "AT" : (chance(50) ? "at" : "aT"));
                 if (chance(5)) in_putc('\r');
                 if (!chance(5)) {
                         const struct cat_command *c = W.cmd[rn(W.ncmds)];
